@@ -55,7 +55,7 @@ type slSpec struct {
 	P        int         `json:"p"`
 	N        int         `json:"n"`
 	Starts   []int       `json:"starts"`
-	Modes    []string    `json:"modes"`    // per plugin: ok | syncerr (its Synchronize handler fails) | syncdrop (it disconnects during synchronisation)
+	Modes    []string    `json:"modes"`    // per plugin: ok | syncerr (its Synchronize handler fails) | syncdrop (it disconnects during synchronisation) | syncerr1 (its handler fails the first time only) | rtfail (the runtime's SyncFn fails after the callback returned, the first time only)
 	DblSeed  int64       `json:"dbl_seed"` // PRNG of the choice which blocks are released twice, and how
 	Probe    int         `json:"probe"`    // 0 none, 1 two blocks held / one released twice, 2 released, ANOTHER block taken, released again, 3 a block held for a multiple of the request time-out with a registration pending
 	Restarts []slRestart `json:"restarts"` // after the stream: plugins that stop and register again under the same name
@@ -85,12 +85,13 @@ type logEv struct {
 // one connection of a plugin = one plugin INSTANCE of the model: "idx-name", then "idx-name#2", ...
 type slSession struct {
 	inst     string
-	snapshot []string
+	snapshot []string // EVERYTHING it was sent in Synchronize requests (two snapshots: every id twice)
 	creates  []string
 	syncs    int
-	sess     int  // the SyncFn invocation that synchronised it, -1: none
-	started  bool // stub.Start returned nil: the plugin is configured, its registration is pending or done
-	stopped  bool // disconnected by the harness (restart)
+	sess     int   // the last SyncFn invocation that synchronised it, -1: none
+	allSess  []int // all of them (more than one: the runtime synchronised the instance again)
+	started  bool  // stub.Start returned nil: the plugin is configured, its registration is pending or done
+	stopped  bool  // disconnected by the harness (restart)
 }
 
 type slPlugin struct {
@@ -101,6 +102,7 @@ type slPlugin struct {
 	cur      *slSession
 	sessions []*slSession
 	onConfig func() // run once inside the Configure handler (probe 3)
+	rtFailed bool   // mode rtfail: the runtime-side failure has been played
 	closes   int32  // connection-closed notifications of the stub
 	stops    int32  // disconnections the harness (or the plugin's own script) caused
 }
@@ -187,6 +189,18 @@ func (r *slRun) syncFn(ctx context.Context, cb adaptation.SyncCB) error {
 		ctrs[i] = &api.Container{Id: id, PodSandboxId: "pod0", Name: id}
 	}
 	_, err := cb(ctx, pods, ctrs)
+	if err == nil {
+		// mode rtfail: the runtime's own part fails AFTER the callback delivered the snapshot and
+		// returned (say, it cannot apply the updates the plugin asked for) — the first time only
+		r.mu.Lock()
+		for _, p := range r.plugins {
+			if p.mode == "rtfail" && !p.rtFailed && p.cur.sess == k {
+				p.rtFailed = true
+				err = errors.New("scripted runtime failure after the sync callback returned")
+			}
+		}
+		r.mu.Unlock()
+	}
 
 	if h := atomic.LoadInt32(&r.held); h != 0 {
 		r.violation("%d sync block(s) held when SyncFn was about to return", h)
@@ -218,13 +232,19 @@ func (p *slPlugin) Synchronize(_ context.Context, pods []*api.PodSandbox, ctrs [
 	r.mu.Lock()
 	s := p.cur
 	s.syncs++
+	first := s.syncs == 1
 	s.sess = k
-	s.snapshot = ids
+	s.allSess = append(s.allSess, k)
+	s.snapshot = append(s.snapshot, ids...)
 	r.appendLocked(logEv{Kind: "srecv", P: s.inst, IDs: ids, sess: k})
 	r.mu.Unlock()
 	switch p.mode {
 	case "syncerr":
 		return nil, errors.New("scripted synchronization failure")
+	case "syncerr1":
+		if first { // a plain (non-fatal) error, once
+			return nil, errors.New("scripted synchronization failure, first time only")
+		}
 	case "syncdrop":
 		// the plugin goes away in the middle of its synchronisation
 		before := atomic.LoadInt32(&p.closes)
@@ -496,8 +516,8 @@ func (r *slRun) buildCase(abandoned bool) *slCase {
 	sessName := map[int]string{}
 	for _, p := range r.plugins {
 		for _, s := range p.sessions {
-			if s.sess >= 0 {
-				sessName[s.sess] = s.inst
+			for _, k := range s.allSess {
+				sessName[k] = s.inst
 			}
 		}
 	}
@@ -529,7 +549,10 @@ func (r *slRun) buildCase(abandoned bool) *slCase {
 	quiet := atomic.LoadInt32(&r.held) == 0 && atomic.LoadInt32(&r.inSync) == 0 && (!abandoned || stalled)
 	for _, p := range r.plugins {
 		for k, s := range p.sessions {
-			live := p.mode == "ok" && !s.stopped && k == len(p.sessions)-1
+			// rtfail / syncerr1: connected to the end, and registered iff the runtime's LAST word on them was success
+			// (the unchanged runtime gives them one synchronisation, which fails)
+			connected := p.mode == "ok" || p.mode == "rtfail" || p.mode == "syncerr1"
+			live := connected && !s.stopped && k == len(p.sessions)-1
 			synced := s.sess >= 0 && okSess[s.sess]
 			snap := []string{} // what an instance was sent in a synchronisation that failed is void (it is in the log)
 			if synced {
@@ -537,7 +560,7 @@ func (r *slRun) buildCase(abandoned bool) *slCase {
 			}
 			cs.Plugins = append(cs.Plugins, slPlugObs{Name: s.inst, Registered: live && synced,
 				Snapshot: snap, Creates: append([]string{}, s.creates...)})
-			if live && s.started && quiet {
+			if live && p.mode == "ok" && s.started && quiet {
 				cs.Must = append(cs.Must, s.inst)
 			}
 			if s.syncs > 1 || (!abandoned && s.syncs != 1) {
@@ -909,6 +932,9 @@ func exactlyOnce(cs *slCase) []string {
 		}
 		snap := map[string]bool{}
 		for _, id := range p.Snapshot {
+			if snap[id] {
+				bad = append(bad, fmt.Sprintf("%s: %s sent in more than one snapshot", p.Name, id))
+			}
 			snap[id] = true
 		}
 		cr := map[string]int{}
@@ -953,7 +979,7 @@ func driveSyncLock(c *hx.Ctx) error {
 	for i := 0; i < runs && failing < slMaxFailing && !stalled; i++ {
 		R := 2 + rnd.Intn(c.Pick(4, 8))
 		P := 1 + rnd.Intn(c.Pick(5, 9))
-		if i < 4 && P < 3 {
+		if i < 7 && P < 3 {
 			P = 3
 		}
 		N := c.Pick(6, 12) + rnd.Intn(c.Pick(10, 24))
@@ -982,6 +1008,17 @@ func driveSyncLock(c *hx.Ctx) error {
 			modes[1], starts[1] = "syncerr", 1
 		case 3:
 			modes[1], starts[1] = "syncdrop", 1
+		case 5:
+			modes[1], starts[1] = "rtfail", 1
+		case 6:
+			modes[1], starts[1] = "syncerr1", 1
+		}
+		for j := 2; j < P; j++ { // and now and then among the others
+			if x := rnd.Intn(100); modes[j] == "ok" && x < 4 {
+				modes[j] = "rtfail"
+			} else if modes[j] == "ok" && x < 8 {
+				modes[j] = "syncerr1"
+			}
 		}
 		probe := 0
 		switch x := rnd.Intn(4); {
@@ -1084,6 +1121,6 @@ func driveSyncLock(c *hx.Ctx) error {
 	} else {
 		c.Count("synclock.failing_runs", failing)
 	}
-	c.Stats.Rule = "synclock: every run in a child process (a runtime that dies inside its sync lock is an observation): R goroutines x N CreateContainer requests inside BlockPluginSync/Unblock on one real Adaptation while P real stubs register at PRNG-chosen points of the creation stream (every 8th run: all at once) and a noise goroutine fires StartContainer outside any block; about 20% of the plugins other than the first FAIL their synchronisation (handler error, or the plugin disconnects during it) and the others must still be registered and blocks obtainable; about 45% of the blocks are released TWICE (explicit Unblock plus a deferred one, the use the doc comment allows), a third of those only after another goroutine has acquired a block; the held-block counter and the log count a block as released at its first Unblock only; half of the runs start with a probe (1: two blocks held, a plugin waiting, the first released twice while the second is between relaying its creation and its bookkeeping; 2: the first block released, THEN a second one taken, a plugin waiting, then the first one's stale second Unblock) that must keep the plugin out for a further 100 ms; a few runs start with probe 3: a block held for 1 s with a registration pending while the plugin request time-out is 300 ms (set from inside the plugin's Configure handler, reset before the release: no request of the unchanged runtime runs under it), after which the registration must complete like any other; half of the runs end with the first plugin disconnecting and registering again under the same index and name with no request in between (a third of those: one request in between), followed by creations the fresh instance must be sent; a run in which nothing is logged for 20 s is dumped as it stands (stuck registrations / blocks are an observation); non-trivial = some plugin completed registration with a non-empty snapshot and more than two creation requests"
+	c.Stats.Rule = "synclock: every run in a child process (a runtime that dies inside its sync lock is an observation): R goroutines x N CreateContainer requests inside BlockPluginSync/Unblock on one real Adaptation while P real stubs register at PRNG-chosen points of the creation stream (every 8th run: all at once) and a noise goroutine fires StartContainer outside any block; about 25% of the plugins other than the first FAIL their synchronisation (handler error every time or the first time only, the plugin disconnects during it, or the runtime's own SyncFn returns an error AFTER the callback delivered the snapshot — the first time only: the unchanged runtime never synchronises an instance twice; po_snapshot is everything an instance was sent) and the others must still be registered and blocks obtainable; about 45% of the blocks are released TWICE (explicit Unblock plus a deferred one, the use the doc comment allows), a third of those only after another goroutine has acquired a block; the held-block counter and the log count a block as released at its first Unblock only; half of the runs start with a probe (1: two blocks held, a plugin waiting, the first released twice while the second is between relaying its creation and its bookkeeping; 2: the first block released, THEN a second one taken, a plugin waiting, then the first one's stale second Unblock) that must keep the plugin out for a further 100 ms; a few runs start with probe 3: a block held for 1 s with a registration pending while the plugin request time-out is 300 ms (set from inside the plugin's Configure handler, reset before the release: no request of the unchanged runtime runs under it), after which the registration must complete like any other; half of the runs end with the first plugin disconnecting and registering again under the same index and name with no request in between (a third of those: one request in between), followed by creations the fresh instance must be sent; a run in which nothing is logged for 20 s is dumped as it stands (stuck registrations / blocks are an observation); non-trivial = some plugin completed registration with a non-empty snapshot and more than two creation requests"
 	return nil
 }
